@@ -23,6 +23,9 @@ func main() {
 	} else if len(os.Args) > 3 && (os.Args[3] == "negif" || os.Args[3] == "guard") {
 		ov, n, err = sweep.RestructureOverlay(repo, os.Args[3])
 		what = "restructured statements"
+	} else if len(os.Args) > 3 && os.Args[3] == "elsewrap" {
+		ov, n, err = sweep.ElseWrapOverlay(repo)
+		what = "statements wrapped into an else"
 	} else if len(os.Args) > 3 && os.Args[3] == "msg" {
 		ov, n, err = sweep.MessageOverlay(repo)
 		what = "reworded messages"
